@@ -576,9 +576,9 @@ def c18(tier):
 @check("C20")
 def c20(tier):
     return modee.enum_check(
-        "C20", tier, ["c20_events", "c20_stats", "c20_tallies"],
+        "C20", tier, ["c20_events", "c20_stats", "c20_procstats", "c20_tallies"],
         "cases: (a) all multisets of <=3 (quick) / <=4 (thorough) events over 2 names x 3 timestamps (tie, no fractional part) x 2 payloads, distributed over 1-3 per-process event files in every way, "
-        "written by the real event logger, consolidated by EventsSummary, read back, re-read and re-consolidated; (b) every sample sequence of length 1-4 over {0,1,2,5} through ResourceMonitorAggregator; "
+        "written by the real event logger, consolidated by EventsSummary, read back, re-read and re-consolidated; (b) every sample sequence of length 1-4 over {0,1,2,5} through ResourceMonitorAggregator, and per-process statistics of two job processes with every presence mask over <=4 ticks x sample values; "
         "(c) every result set over {successful, failed(1), failed(2), canceled, missing}^n, n<=4 through JobSubmitter._handle_completion and ResultsSummary. non-trivial: more than one event/sample",
         E_ASSUMPTIONS)
 
@@ -603,7 +603,7 @@ def c19(tier):
         echecks2.build_probes()  # normally done by `./check setup`
     return modee.enum_check(
         "C19", tier, ["c19_launch"],
-        "cases: job specifications = commands of <=3 tokens over a 23-token quoting/special-character alphabet (quotes, escapes, $VAR, braces, globs, shell operators, non-ASCII) with blank and blank-tab-blank separators (3-token commands: blank only in quick), "
+        "cases: job specifications = commands of <=3 tokens over a 25-token quoting/special-character alphabet (quotes with blanks, blank runs and tabs inside, escapes, $VAR, braces, globs, shell operators, non-ASCII), with JADE_* variables already set in the runner's own environment, with blank and blank-tab-blank separators (3-token commands: blank only in quick), "
         "cycled over the 4 append_* combinations and exit codes; all exit codes 0-255; 7 job-name shapes x 4 append_* combinations; the bare command. Each is executed by the real JobRunner/AsyncCliCommand with a REAL child process "
         "(compiled probe that reports argv/env and exits with the requested code); argv is compared with shlex.split + documented suffixes, env, own stdout/stderr files, and the row read back through ResultsAggregator (name, exit code, hpc_job_id). "
         "evaluations counts job specifications (run in batches of 24)",
@@ -840,6 +840,19 @@ def c16(tier):
         for names in (None, ["zz_first", "aa_second"]):
             sc = mk_scen(bb, dict(size=1, max_nodes=2), assign=tuple(i % 2 for i in range(len(bb))), hooks=allhooks, gnames=names)
             tasks.append(dict(id=f"hooks-2groups-{g}-{'za' if names else 'dg'}", scen=sc, oracles=["Obs", "C16"], budget=(0, 0), cls="hooks+2groups"))
+    # a completion with missing jobs (a batch was refused): teardown still runs exactly once
+    for g in ("chain3", "indep3", "fork"):
+        bb = S.REP[g]
+        sc = mk_scen(bb, dict(size=1, max_nodes=None), hooks=allhooks)
+        sc["refuse_scripts"] = ["job_batch_2.sh"]
+        tasks.append(dict(id=f"hooks-lostbatch-{g}", scen=sc, oracles=["Obs", "C16"], budget=(0, 0), cls="hooks+lost-batch"))
+    # failing teardown hooks on multi-batch graphs (the node must still hand over)
+    for g in ("chain3", "fork", "indep3"):
+        bb = S.REP[g]
+        for tag, gkw in (("sz1", dict(size=1, max_nodes=2)), ("sz2", dict(size=2, max_nodes=None))):
+            sc = mk_scen(bb, gkw, hooks=allhooks, actors=[])
+            sc["hook_exit_by_kind"] = {"teardown": 1, "node_teardown": 1}
+            tasks.append(dict(id=f"hooks-failing-teardown-{g}-{tag}", scen=sc, oracles=["Obs", "C16"], budget=(0, 0), cls="hooks+failing-teardown"))
     # a resubmission: teardown again, setup not
     for g in ("chain2", "pair", "chain3"):
         bb = S.REP[g]
@@ -850,7 +863,7 @@ def c16(tier):
             sc = mk_scen(bb, dict(size=1, max_nodes=None), hooks=allhooks, actors=actors)
             sc["exit_codes"] = {S.NAMES[i]: [c, 0] for i, c in enumerate(ec) if c}
             tasks.append(dict(id=f"hooks-resub-{g}-e{''.join(map(str, ec))}-f{''.join(map(str, fl))}", scen=sc, oracles=["Obs", "C16"], budget=(0, 0), cls="hooks+resubmit"))
-    bounds = "two submission groups; resubmissions (all / some / successful jobs); all 16 set/unset combinations of the four lifecycle commands x 4 REP graphs x {1 batch per job, one batch, 2 per batch, local}; failing teardown hooks; budget 1 on the multi-batch scenarios"
+    bounds = "a refused batch (completion with missing jobs); failing teardown hooks without a recovery actor; two submission groups; resubmissions (all / some / successful jobs); all 16 set/unset combinations of the four lifecycle commands x 4 REP graphs x {1 batch per job, one batch, 2 per batch, local}; failing teardown hooks; budget 1 on the multi-batch scenarios"
     return explore_check("C16", tier, tasks, S_RULE, COMMON_ASSUMPTIONS, dict(bounds=bounds))
 
 
@@ -1028,6 +1041,14 @@ def c15_tasks(tier):
                 bud = (1, 0) if (n <= 2 or tier == "thorough") else (0, 0)
                 tasks.append(dict(id=f"pipe-{'+'.join(combo)}-f{len(fails)}-b{bud[0]}", scen=sc,
                                   oracles=["Obs", "C15"], budget=bud, cls="pipeline"))
+                if not fails and n == 2 and combo[0] in ("one", "two-batches", "local"):
+                    import copy
+
+                    sc4 = copy.deepcopy(sc)
+                    sc4["stage_hooks"] = {"teardown": "hook teardown"}
+                    sc4["hook_exit_by_kind"] = {"teardown": 1}
+                    tasks.append(dict(id=f"pipe-{'+'.join(combo)}-failing-teardown", scen=sc4, oracles=["Obs", "C15"],
+                                      budget=(0, 0), cls="pipeline+failing-teardown"))
                 if not fails and "two-batches" in combo and (n <= 2 or tier == "thorough"):
                     import copy
 
@@ -1052,7 +1073,7 @@ def c15_tasks(tier):
 def c15(tier):
     tasks = c15_tasks(tier)
     bounds = ("pipelines of 1-3 (thorough 4) stages over 5 stage shapes (1 job; 2 jobs in 2 batches; 2 jobs in 1 batch; 2-job chain; local), stage configs with and without their own submission groups, "
-              "a failing job in stage 1, a refused batch (stage ends with missing jobs), a duplicated stage-2 trigger at any later point; jade pipeline submit as the login process, next stages triggered by the real submit-next-stage; 1 preemption on <=2-stage pipelines (all in thorough) with the recovery actor on the current stage")
+              "a failing job in stage 1, a refused batch (stage ends with missing jobs), a failing stage teardown command, a duplicated stage-2 trigger at any later point; jade pipeline submit as the login process, next stages triggered by the real submit-next-stage; 1 preemption on <=2-stage pipelines (all in thorough) with the recovery actor on the current stage")
     return explore_check("C15", tier, tasks, S_RULE, COMMON_ASSUMPTIONS + ["auto-config commands are not explored (they write relative to the process cwd); stage config files only"], dict(bounds=bounds))
 
 
